@@ -377,6 +377,28 @@ HOSTILE_TITLES = ["", " ", "!!!", "é", "日本語", "—", "???", "\ud800", "\x
                   "\U0001F600", "_", "__", "-", "a-b", "ünï cödé", "\n", "title with spaces", "Ⅷ", "²"]
 
 
+def boolean_and_untitled_roots(ctx, sut):
+    """`true` and `false` are schemas; so is an untitled object that holds an unrenderable integer (the
+    refusal for the missing title must still be the schema-parse error)."""
+    cases = [("parse", True), ("parse", False), ("parse_element", True), ("parse_element", False),
+             ("parse_element", {"type": "object", "const": HUGE_TOKEN}),
+             ("parse", {"type": "object", "properties": {"a": {"type": "object", "enum": [HUGE_TOKEN]}}}),
+             ("parse", {"definitions": {"t": True, "f": False}, "type": "string"})]
+    for idx, (route, shape) in enumerate(cases):
+        if idx % ctx.nshards != ctx.shard:
+            continue
+        schema = instantiate_huge(shape) if not isinstance(shape, bool) else shape
+        ctx.evaluation()
+        ctx.count("parse.boolean_or_untitled_roots")
+        try:
+            (sut.st_parser.parse if route == "parse" else sut.st_parser.parse_element)(schema)
+        except BaseException as exc:  # pylint: disable=broad-except
+            outcome = sut.outcome_class(exc)
+            if outcome not in ("SchemaParseError", "FeatureNotImplementedError"):
+                ctx.witness("parse_escape." + outcome, {"schema_shape": shape, "route": route, "site": "roots"},
+                            f"{type(exc).__name__} escaped {route}: {exc!r}"[:300])
+
+
 def raw_parser_calls(ctx, sut):
     """parse_element / parse on the caller's own dicts, WITHOUT the labeller's annotations: explicit
     (possibly hostile) titles only.  Only the error family is judged."""
@@ -561,6 +583,7 @@ def run_shard(ctx):
 
     beyond_str_limit(ctx, sut)
     beyond_str_limit_in_schema(ctx, sut)
+    boolean_and_untitled_roots(ctx, sut)
     sites(ctx, sut)
     parser_and_calls(ctx, sut)
     raw_parser_calls(ctx, sut)
@@ -570,6 +593,17 @@ def replay(case, ctx):
     from vlib import sut  # pylint: disable=import-outside-toplevel
 
     schema = case.get("schema")
+    if case.get("site") == "roots":
+        shape = case["schema_shape"]
+        schema = instantiate_huge(shape) if not isinstance(shape, bool) else shape
+        ctx.evaluation()
+        try:
+            (sut.st_parser.parse if case["route"] == "parse" else sut.st_parser.parse_element)(schema)
+        except BaseException as exc:  # pylint: disable=broad-except
+            outcome = sut.outcome_class(exc)
+            if outcome not in ("SchemaParseError", "FeatureNotImplementedError"):
+                ctx.witness("parse_escape." + outcome, case, repr(exc)[:200])
+        return
     if case.get("site") == "hugeschema":
         element = sut.parse_direct(instantiate_huge(case["schema_shape"], case.get("sign", 1)))
         vshape = case.get("value_shape", 1)
